@@ -53,6 +53,13 @@ type vestCfg struct {
 	withInval bool
 	owners    []string
 	pools     []string
+	poolDefs  []poolDef // explicit create-pool events (instead of owners x pools x poolSpecs)
+	sendRestartBoth bool
+}
+
+type poolDef struct {
+	owner, name string
+	poolSpec
 }
 
 type poolSpec struct {
@@ -86,10 +93,16 @@ func vestEvents(c vestCfg) []Ev {
 		}}
 	}
 	fixed := func(n int64) func(View) sdk.Int { return func(View) sdk.Int { return sdk.NewInt(n) } }
-	for _, o := range c.owners {
-		for _, p := range c.pools {
-			for _, ps := range c.poolSpecs {
-				evs = append(evs, mkPool(o, p, fixed(ps.amount), fmt.Sprint(ps.amount), ps.dur, ps.vtype))
+	if len(c.poolDefs) > 0 {
+		for _, pd := range c.poolDefs {
+			evs = append(evs, mkPool(pd.owner, pd.name, fixed(pd.amount), fmt.Sprint(pd.amount), pd.dur, pd.vtype))
+		}
+	} else {
+		for _, o := range c.owners {
+			for _, p := range c.pools {
+				for _, ps := range c.poolSpecs {
+					evs = append(evs, mkPool(o, p, fixed(ps.amount), fmt.Sprint(ps.amount), ps.dur, ps.vtype))
+				}
 			}
 		}
 	}
@@ -101,7 +114,11 @@ func vestEvents(c vestCfg) []Ev {
 		}, "bal+1", 5*time.Second, "t5"))
 		evs = append(evs, mkPool(o, p, fixed(10), "10", 5*time.Second, "missing"))
 	}
-	for _, o := range append(append([]string{}, c.owners...), "C") {
+	wOwners := append([]string{}, c.owners...)
+	if c.withInval {
+		wOwners = append(wOwners, "C")
+	}
+	for _, o := range wOwners {
 		o := o
 		evs = append(evs, Ev{Name: "withdraw(" + o + ")", Build: func(v View) (sdk.Msg, string) {
 			return vtypes.NewMsgWithdrawAllAvailable(harness.AddrS(o)), o
@@ -137,12 +154,17 @@ func vestEvents(c vestCfg) []Ev {
 		for _, p := range c.pools {
 			for _, a := range c.sendAmts {
 				evs = append(evs, mkSend(o, p, a, "fresh", true))
+				if c.sendRestartBoth {
+					evs = append(evs, mkSend(o, p, a, "fresh", false))
+				}
 			}
 		}
 	}
 	o0, p0 := c.owners[0], c.pools[0]
-	evs = append(evs, mkSend(o0, p0, "3", "fresh", false))
-	evs = append(evs, mkSend(o0, p0, "rem", "fresh", false))
+	if !c.sendRestartBoth {
+		evs = append(evs, mkSend(o0, p0, "3", "fresh", false))
+		evs = append(evs, mkSend(o0, p0, "rem", "fresh", false))
+	}
 	if c.withInval {
 		other := "C"
 		evs = append(evs, mkSend(o0, p0, "3", other, true))
